@@ -152,6 +152,39 @@ def DStmt.hasExt (d : DStmt) : Bool := match d with
     | some t => !t.exts.isEmpty
     | none => false
 
+/-- "with the block being analysed … at that position in the block's stack": the instructions of
+one block's own stack that read a register written by an extension instruction `e` of the function
+stack, where `e` stands in the function stack before the first occurrence of the reader (so the
+reader is not one of the F7 look-ahead reads of a register written later), must find `e` earlier in
+that same block's stack.  Returns the first offending (tag, register) of a stack. -/
+def extLocalStack (root stack : List Instr) : Option (Nat × Nat) :=
+  let rec go (seen : List Instr) : List Instr → Option (Nat × Nat)
+    | [] => none
+    | i :: rest =>
+      let bad := i.reads.findSome? fun k =>
+        match root.find? (fun e => isExtInstr' e && e.writes == some k) with
+        | some e =>
+          let pe := root.idxOf e
+          let pi := root.idxOf i
+          if pe < pi && !seen.contains e then some (e.extTag.getD 0, k) else none
+        | none => none
+      match bad with
+      | some b => some b
+      | none => go (i :: seen) rest
+  go [] stack
+where isExtInstr' : Instr → Bool
+  | .ext _ _ _ => true
+  | _ => false
+
+mutual
+def Block.extLocal (root : List Instr) : Block → List (Nat × Nat)
+  | ⟨_, _, _, _, _, children, context⟩ =>
+    (match extLocalStack root context with | some b => [b] | none => []) ++ Block.extLocalL root children
+def Block.extLocalL (root : List Instr) : List Block → List (Nat × Nat)
+  | [] => []
+  | c :: cs => Block.extLocal root c ++ Block.extLocalL root cs
+end
+
 /-- C19: extension leaves once, in evaluation order, the operand is the returned result verbatim,
 and every extension instruction of a block is in every ancestor's stack (by C18's subsequence) -/
 def P_C19 (p : Program) (r : Result) : List String :=
@@ -166,6 +199,17 @@ def P_C19 (p : Program) (r : Result) : List String :=
       if want == got then [] else [s!"c19:fn{i}:extension-instructions:{got}:expected:{want}"])
    else []) ++
   (r.roots.zipIdx.flatMap fun (b, i) => if b.subseqOk then [] else [s!"c19:fn{i}:extension-instruction-missing-in-ancestor"])
+
+/-- pushed with the block being analysed: the block whose stack reads the result of an extension
+leaf holds the leaf's instruction (accepted programs).  Validated only: evaluated
+on the implementation's dump and on the model's result for every generated program; not part of
+theorem `C19` (seeded change C19-e). -/
+def P_C19_local (r : Result) : List String :=
+  -- accepted programs only: a rejected analysis abandons expressions half-way, and a register read
+  -- by a later instruction of another block need not be the result the reader was built for
+  if r.panic.isSome || !r.accepted then [] else
+  r.roots.zipIdx.flatMap fun (b, i) =>
+    (b.extLocal b.context).map fun (t, k) => s!"c19:fn{i}:extension-instruction-{t}-missing-in-the-block-that-reads-its-result-%{k}"
 
 /-- every program that does not panic, accepted or not: the extension instructions of each function
 stack are the leaves the analysis evaluates (`visFn`: operands to the right of a failing operand
